@@ -40,3 +40,14 @@ func VerifReadSetup(db *DB) (verify bool, filterName string, restartInterval int
 	restartInterval = o.GetBlockRestartInterval()
 	return
 }
+
+// VerifGetAt is DB.get at an arbitrary sequence number (what Snapshot.Get does for a snapshot pinned at
+// seq), without requiring a snapshot: the correspondence probes the read path at the sequence numbers of
+// stored entries (table boundaries) this way.  Entries below the oldest live snapshot may already have
+// been dropped by compactions; the answer is about the state as it is.
+func VerifGetAt(db *DB, key []byte, seq uint64) ([]byte, error) {
+	if err := db.ok(); err != nil {
+		return nil, err
+	}
+	return db.get(nil, nil, key, seq, nil)
+}
